@@ -411,6 +411,7 @@ Definition sx_event (st : pst) (e : sx) : option event :=
   | SL [SN 5%Z; SB a; SN k] => match find_sid st a k with Some s => Some (EServerClose s) | None => None end
   | SL [SN 6%Z] => Some ETimeout
   | SL [SN 7%Z; SB a] => Some (EProbe a)
+  | SL [SN 12%Z; SB a; SN d] => Some (EDialable a (negb (Z.eqb d 0)))
   | SL [SN 10%Z; SL chs] =>
       match map_opt (fun c => match c with SL [SB q; SB a] => Some (q, a) | _ => None end) chs with
       | Some l => Some (EChoices l)
